@@ -180,6 +180,9 @@ Definition dotacc (row x : list T) : T :=
 Definition dense_mv (M : list (list T)) (x : list T) : list T := map (fun row => dotacc row x) M.
 
 (* ------------------------------------------------------------------ dgscon *)
+(* Real precisions only.  The complex twins c/zgscon at HEAD (fix of finding C12-zgscon-plain-transpose) conjugate
+   work[] before and after the two "Transpose" solves of the else-branch, i.e. they hand ?lacon_ the adjoint pair
+   (inv(A), inv(A)**H) that lacon_upper requires; for real data the pair below is adjoint as it stands. *)
 (* lsame_(ca, cb): ASCII, case-insensitive on letters *)
 Definition upcase (c : Z) : Z := if (97 <=? c) && (c <=? 122) then c - 32 else c.
 Definition lsame (ca cb : Z) : bool := (ca =? cb) || (upcase ca =? upcase cb).
